@@ -37,10 +37,12 @@ func (r *FnRun) call(st *State, b *ssa.BasicBlock, idx int, x *ssa.Call) (Val, b
 				continue
 			}
 			env := r.calleeEnv(st, r.Entry, callee, args)
-			for k, v := range r.params {
-				if _, have := env.vars[k]; !have {
-					env.vars[k] = v
-					env.vtypes[k] = r.ptypes[k]
+			for p := r; p != nil; p = p.parent {
+				for k, v := range p.params {
+					if _, have := env.vars[k]; !have {
+						env.vars[k] = v
+						env.vtypes[k] = p.ptypes[k]
+					}
 				}
 			}
 			for k, v := range r.lets {
@@ -567,7 +569,9 @@ func (r *FnRun) inlineCall(st *State, b *ssa.BasicBlock, idx int, x *ssa.Call, c
 	if cc == nil {
 		cc = &FuncContract{Key: callee.Name(), Opts: map[string]string{}}
 	}
-	sub := &FnRun{E: r.E, Fn: callee, C: &FuncContract{Key: cc.Key, Opts: map[string]string{"implicit_panics": r.C.Opts["implicit_panics"]}, Inline: cc.Inline, Clauses: loopClauses(cc)},
+	sub := &FnRun{E: r.E, Fn: callee, C: &FuncContract{Key: cc.Key, Opts: map[string]string{"implicit_panics": r.C.Opts["implicit_panics"]}, Inline: cc.Inline, Clauses: loopClauses(cc),
+		// caller-side obligations and the effect allow-list of the function under contract also cover the code expanded into it
+		AtCall: r.C.AtCall, Effects: r.C.Effects},
 		params: map[string]Val{}, ptypes: map[string]types.Type{}, lets: map[string]Val{},
 		loops: map[*ssa.BasicBlock]*loopInfo{}, siteCnt: map[string]int{}, siteIdx: map[ssa.Instruction]int{},
 		FnName: r.FnName + "/inl." + callee.Name(), parent: r, depth: r.depth + 1, implicit: r.implicit}
@@ -578,6 +582,16 @@ func (r *FnRun) inlineCall(st *State, b *ssa.BasicBlock, idx int, x *ssa.Call, c
 		s2.regs[p] = args[i]
 		sub.params[p.Name()] = args[i]
 		sub.ptypes[p.Name()] = p.Type()
+	}
+	if len(callee.FreeVars) > 0 {
+		// a closure expanded at its call site: its free variables are the bindings of the closure value
+		cv, ok := r.operand(st, x.Call.Value).(*ClosureVal)
+		if !ok || len(cv.Bindings) != len(callee.FreeVars) {
+			panic(unsupported("inline of a closure whose bindings are not known at the call"))
+		}
+		for i, fv := range callee.FreeVars {
+			s2.regs[fv] = cv.Bindings[i]
+		}
 	}
 	sub.Entry = s2.clone()
 	sub.execBlock(callee.Blocks[0], nil, s2)
